@@ -88,6 +88,10 @@ def strategy(tier):
             # swarm testing: a random subset of the operation kinds (half of the programs use all of them)
             "enabled": st.one_of(st.just(list(KINDS)), st.lists(st.sampled_from(KINDS), min_size=1, max_size=len(KINDS), unique=True)),
             "program": st.lists(_op(), min_size=3, max_size=14),
+            # start state: the reactor as built from the blueprints, or (1 in 4) that reactor written to a real Database
+            # and loaded back, as a restart / snapshot / post-processing run shuffles it (Database.load marks every
+            # assembly with lastLocationLabel = Assembly.DATABASE)
+            "start": st.sampled_from(["built", "db-loaded", "built", "built"]),
         }
     )
 
@@ -495,6 +499,28 @@ def _apply_plates(spec, mode):
     return spec
 
 
+def _through_database(cs, bp, r):
+    """Write the reactor with a real Database and return the reactor loaded from it (what Database.load gives a restart:
+    nothing is called on it afterwards; the pool is empty at this point, so no pool assembly needs a name lookup yet)."""
+    import os
+
+    from armi.bookkeeping.db.database import Database
+
+    fn = "c14_%d.h5" % os.getpid()  # relative: created in the fast path, moved to the scratch cwd on close
+    if os.path.exists(fn):
+        os.remove(fn)
+    cyc, node = int(r.p.cycle), int(r.p.timeNode)
+    db = Database(fn, "w")
+    db.open()
+    try:
+        db.writeToDB(r)
+        return db.load(cyc, node, cs=cs, bp=bp)
+    finally:
+        db.close(True)
+        if os.path.exists(fn):
+            os.remove(fn)
+
+
 def _execute(case, exclude):
     from armi.physics.fuelCycle import fuelHandlers
 
@@ -506,6 +532,10 @@ def _execute(case, exclude):
         spec["sfp"] = True
         out.label("excluded:" + SIG_NOGRID)
     cs, bp, r = rg.build(spec, {"trackAssems": track, "stationaryBlockFlags": list(flags)})
+    start = case.get("start", "built")
+    if start == "db-loaded":
+        r = _through_database(cs, bp, r)
+    out.label("start:" + start)
     core = r.core
     sfp = r.excore.get("sfp")
     fh = fuelHandlers.FuelHandler(_Operator(r, cs))
@@ -754,7 +784,8 @@ PARTS = [
     Part("programs", execute, strategy=strategy, budget={"quick": 480, "thorough": 12000}, procs={"quick": 6, "thorough": 16},
          rule="Hypothesis: blueprint-built core (hex third/full flats/corners up, Cartesian full/quarter, 2-4 rings, holes, 1-3 designs of "
               "1-3 blocks, grid plates/reflectors at any axial position or forced to the bottom / bottom+top, SFP explicit or default) x "
-              "trackAssems on/off x stationaryBlockFlags {none, grid plate, grid plate+reflector} x program of <= 10 operations drawn "
+              "start state {as built, 1 in 4: written to a Database and loaded back} x "
+              "trackAssems on/off x stationaryBlockFlags {none, grid plate, grid plate+reflector} x program of <= 14 operations drawn "
               "from a random subset of {swapAssemblies, swapCascade(2-5 members), dischargeSwap(fresh|pool), Core.add(fresh|pool) at a "
               "free location, removeAssembly(discharge True|False)}, operands modulo the valid targets (centre first); oracle = "
               "location/pool/purged/block-stack model compared after every step (children, locators, childrenByLocator, string "
